@@ -7,7 +7,7 @@
    (Generated/C13Consts.v); [maxl] is the filesystems' symlink nesting limit. *)
 From Apko Require Import Base.Prelude Model.C13Fs Model.Accounts Model.PathMut Model.C13Build Generated.C13Consts
   Spec.AccountsSpec Spec.PathMutSpec Proofs.AccountsProofs Proofs.AccountsCodec Proofs.PathMutResolve Proofs.AccountsHomes Proofs.PathMutProofs Proofs.PathMutFrame Proofs.PathMutFuel Proofs.PathMutKinds Proofs.PathMutBuild
-  Proofs.PathMutWf Proofs.PathMutExact Proofs.AccountsParsed.
+  Proofs.PathMutWf Proofs.PathMutExact Spec.AccountsClean Proofs.AccountsParsed.
 Open Scope string_scope. Open Scope list_scope.
 
 (* the constants in the source are the documented defaults: /bin/sh, /home/,
